@@ -45,8 +45,17 @@ import (
 
 const nVals = 4
 const flushRounds = 48 // barrier hand-offs after an event that only makes a channel ready
-const watchdog = 4 * time.Second
-const haltGrace = 30 * time.Millisecond
+// VERIF_SM_PATIENT (set for the re-run of a suspect history): much longer waits, so that a loaded machine is not
+// mistaken for a blocked kernel and a panicking process has died before the next event is delivered.
+var watchdog = 4 * time.Second
+var haltGrace = 30 * time.Millisecond
+
+func init() {
+	if os.Getenv("VERIF_SM_PATIENT") != "" {
+		watchdog = 30 * time.Second
+		haltGrace = 700 * time.Millisecond
+	}
+}
 
 // ---------------------------------------------------------------- output items (see SMWire.v)
 const (
@@ -263,6 +272,9 @@ type recTimer struct {
 	mu     sync.Mutex
 	active *oneTimer
 	cancel chan struct{} // signalled (non-blocking) on every cancel call
+	// the most recent timer that was cancelled before it elapsed and whose channel is still open: the "stale
+	// elapse" pseudo-event closes it (a timer that fired concurrently with its cancellation)
+	lastCancelled *oneTimer
 }
 type oneTimer struct {
 	kind, h, r uint64
@@ -286,6 +298,7 @@ func (t *recTimer) mk(kind uint64, h uint64, r uint32) (<-chan struct{}, func())
 		if !ot.done {
 			was = 1
 			ot.done = true
+			t.lastCancelled = ot
 		}
 		t.mu.Unlock()
 		t.rec.SM(oTimerCancel, ot.kind, ot.h, ot.r, was)
@@ -886,6 +899,23 @@ func (h *harness) event(xs []uint64) {
 			}
 			return seen
 		})
+	case 30: // stale elapse (not an event of the model): the channel of a timer that was CANCELLED is closed now, as if
+		// the timer had fired concurrently with the cancellation and the kernel's select had taken the other branch.
+		// A state machine that listens to its step timer only while it believes in one shows no reaction at all.
+		if !h.idleLive() {
+			h.undeliverable()
+			break
+		}
+		h.tm.mu.Lock()
+		t := h.tm.lastCancelled
+		h.tm.lastCancelled = nil
+		h.tm.mu.Unlock()
+		if t == nil {
+			h.undeliverable()
+			break
+		}
+		close(t.ch)
+		h.settle(false, 6, nil)
 	case 9: // release the held strategy call
 		kind, hash := r.n(), r.n()
 		if !h.running || h.held == nil {
